@@ -103,6 +103,13 @@ jcmd_jwe_fmt(int argc, char *argv[])
             return EXIT_FAILURE;
         }
 
+        /* The compact form has no place for additional authenticated
+         * data: without it the JWE could not be decrypted. */
+        if (json_object_get(opt.obj, "aad")) {
+            fprintf(stderr, "A JWE with \"aad\" has no compact form.\n");
+            return EXIT_FAILURE;
+        }
+
         for (size_t i = 0; strcmp(opt.fields[i].name, "ciphertext") != 0; i++) {
             const jcmd_field_t *f = &opt.fields[i];
             const char *k = f->name;
